@@ -15,6 +15,7 @@ import ast
 from .. import leanio, pyextract
 from ..core import Ctx, ExtractError
 from ..sim import pool
+from . import sim_c02
 
 ID = "C02"
 LEVEL = "proof"
@@ -83,7 +84,12 @@ THEOREMS = [("Kopf.Props.C02", "Kopf.C02." + n) for n in [
     "namesake_record_overwritten", "final_outcome_recorded_whole", "invokedSeqB_eq", "finished_never_invoked_whole",
     "once_per_cycle_whole", "namesake_not_inherited_regression", "namesake_subrefs_dropped_witness",
     "composed_pass_is_cycle2_over_taken", "cycle2B_child_no_rerun", "cycle2B_closed_purges_children",
-    "namesake_children_inherit_witness"]]
+    "namesake_children_inherit_witness"]] + [("Kopf.Props.C02_Nested", "Kopf.C02." + n) for n in [
+    "subPassN_same_pass", "subPassN_eq_subPass_of_leaves", "subN_records_covered", "subN_reports_covered", "below_covered",
+    "reported_purged_on_close", "nested_records_purged_on_close", "nested_accumulator_regression",
+    "parentOutcome_subrefs", "parentOutcome_open", "parentOutcome_own", "failing_parent_children_purged_on_close",
+    "left_out_is_resumed", "selectResumed_sub", "resumedAfter_mem", "closing_empties_resumed", "resumed_run_all_final",
+    "left_out_had_finished"]]
 TIE_THEOREMS = [("Kopf.Tie.C02", "Kopf.C02.Tie." + n) for n in [
     "finished_eq", "sleeping_eq", "awakened_eq", "success_eq", "failure_eq", "one_by_one_eq", "all_at_once_eq"]]
 RULE = ("seeded scenarios: 1-4 change handlers (create/update/delete/resume, optional sub-handlers), outcome scripts over "
@@ -273,17 +279,40 @@ def gen_scenario(rng: Any, i: int) -> dict:
     return sc
 
 
-NON_PROGRESS_KEYS = {"last-handled-configuration", "touch-dummy"}
+NON_PROGRESS_KEYS = {"last-handled-configuration", "touch-dummy", "kopf-managed"}
 
 
-def _annotations_after(cyc: dict) -> dict | None:
-    """Annotations of the object after this cycle's merge-patch (independent RFC 7386 application)."""
+def _progress_records(body: dict, sc: dict) -> dict[str, Any]:
+    """Every progress record the object carries, WHEREVER the configured storage keeps it — independent decoding, from
+    the documented layouts (docs/configuration.rst): annotations `<prefix>/<id with / as .>` holding JSON, and/or
+    `status.<name>.progress.<id>`. Keys: the id in its annotation form (`p.c.g`); values: the decoded record, or None
+    for one that does not decode. The annotation wins where both exist (the order in which the storages are asked)."""
+    spec = sc.get("progress_storage") or {}
+    kind = spec.get("kind", "smart")
+    prefix = spec.get("prefix", "kopf.zalando.org") + "/"
+    name = spec.get("name", "kopf")
+    out: dict[str, Any] = {}
+    if kind in ("annotations", "multi", "smart"):
+        for k, raw in ((body.get("metadata") or {}).get("annotations") or {}).items():
+            if k.startswith(prefix) and k[len(prefix):] not in NON_PROGRESS_KEYS:
+                try:
+                    out[k[len(prefix):]] = json.loads(raw)
+                except (ValueError, TypeError):
+                    out[k[len(prefix):]] = None
+    if kind in ("status", "multi", "smart"):      # the default storage reads the status too (it never writes there)
+        st = ((body.get("status") or {}).get(name) or {})
+        for hid, rec in ((st.get("progress") if isinstance(st, dict) else None) or {}).items():
+            out.setdefault(str(hid).replace("/", "."), rec if isinstance(rec, dict) else None)
+    return out
+
+
+def _body_after(cyc: dict) -> dict | None:
+    """The object after this cycle's merge-patch (independent RFC 7386 application)."""
     ap = cyc.get("apply")
     if not ap:
         return None
     from .. import rfc
-    patched = rfc.merge_patch(cyc["body"], ap["patch"])
-    return (patched.get("metadata") or {}).get("annotations") or {}
+    return rfc.merge_patch(cyc["body"], ap["patch"])
 
 
 def gen_supersede(rng: Any, i: int) -> dict:
@@ -750,6 +779,216 @@ def gen_subs(rng: Any, i: int) -> dict:
     return sc
 
 
+def _iso(t: float) -> str:
+    """A stored timestamp the way kopf writes it (`isoformat(timespec='microseconds')`), `t` seconds after the simulation's epoch."""
+    import datetime
+    from ..sim import simloop
+    return (simloop.EPOCH + datetime.timedelta(seconds=t)).isoformat(timespec="microseconds")
+
+
+def _leaf_script(rng: Any) -> list:
+    return [rng.choice(["ok", ["temp", 0.5], ["temp", 1.0], ["temp", 2.0], "perm", "arb"]) for _ in range(rng.choice([0, 0, 1, 1, 2]))]
+
+
+def _after_list(rng: Any) -> list:
+    """The parent's own ending after its sub-handlers, per invocation: nothing for some invocations, then a failure."""
+    return [None] * rng.choice([0, 0, 1, 2, 3]) + [rng.choice(["perm", "perm", "arb", ["temp", 1.0], ["temp", 0.5]])] \
+        + ([None] * 2 + [rng.choice(["perm", "arb"])] if rng.random() < 0.3 else [])
+
+
+def _sub_tree(rng: Any, depth: int, width: list[int], p_nest: float, p_after: float, p_sets: float) -> list[dict]:
+    subs = []
+    for j in range(rng.choice(width)):
+        s: dict[str, Any] = {"id": f"s{j}", "default": "ok", "script": _leaf_script(rng)}
+        if depth > 0 and rng.random() < p_nest:
+            # a sub-handler that is a parent itself: its own function goes through (mostly), its children are scripted
+            s["script"] = [] if rng.random() < 0.7 else [rng.choice([["temp", 0.5], "arb"])]
+            s["sub"] = _sub_tree(rng, depth - 1, [1, 1, 2], p_nest * 0.6, p_after, p_sets)
+            s["sub_mode"] = rng.choice(SUB_MODES)
+            if rng.random() < p_after:
+                s["after"] = _after_list(rng)
+            if len(s["sub"]) > 1 and rng.random() < p_sets:
+                s["sub_sets"] = _sub_sets(rng, [x["id"] for x in s["sub"]])
+        subs.append(s)
+    return subs
+
+
+def _sub_sets(rng: Any, ids: list[str]) -> list:
+    """The sub-handlers a parent registers per invocation: the set shrinks, grows, changes."""
+    out: list = []
+    for _ in range(rng.choice([1, 2, 3])):
+        k = rng.choice([None, None, 1, 1, len(ids) - 1])
+        out.append(None if k is None else sorted(rng.sample(ids, max(1, k))))
+    return out
+
+
+def gen_nested(rng: Any, i: int) -> dict:
+    """What the scripted parents of `gen_subs` could not do (white-box review m1, m4, m6, m7): sub-handlers BELOW the first level
+    (a sub-handler that registers sub-handlers of its own, two or three levels, each level by any of the four ways);
+    a parent — top-level or nested — whose OWN function fails (permanently, arbitrarily, temporarily) AFTER its
+    sub-handlers ran in the same invocation (explicit `kopf.execute`), or right after registering them (implicit run:
+    they never start); a parent whose SET of sub-handlers changes from one invocation to the next. Parents of every kind,
+    limits on the parents (children-retries use up their attempts), deletion / edits while the tree is retrying,
+    stop / kill + restart in between."""
+    kinds = [rng.choice(["create", "create", "update", "update", "delete", "resume", "field"]) for _ in range(rng.choice([1, 1, 2]))]
+    if "delete" not in kinds and rng.random() < 0.35:
+        kinds.append("delete")
+    flavour = rng.choice(["nested", "nested", "after", "after", "sets", "mixed"])
+    p_nest = {"nested": 0.7, "after": 0.15, "sets": 0.1, "mixed": 0.5}[flavour]
+    p_after = {"nested": 0.1, "after": 0.0, "sets": 0.0, "mixed": 0.3}[flavour]
+    p_sets = {"nested": 0.1, "after": 0.0, "sets": 0.3, "mixed": 0.3}[flavour]
+    handlers = []
+    for k, kind in enumerate(kinds):
+        opts: dict[str, Any] = {}
+        if kind == "field":
+            opts["field"] = "spec.x"
+        if kind == "resume" and rng.random() < 0.6:
+            opts["deleted"] = True
+        if rng.random() < 0.25:
+            opts["backoff"] = rng.choice([0.5, 1.0, 2.0])
+        if rng.random() < 0.12:
+            opts["retries"] = rng.choice([3, 4, 6])
+        if rng.random() < 0.15:
+            opts["errors"] = rng.choice(["ignored", "temporary", "permanent"])
+        h: dict[str, Any] = {"kind": kind, "id": f"{kind[0]}{k}", "opts": opts, "default": "ok",
+                             "script": [] if rng.random() < 0.75 else [rng.choice([["temp", 1.0], ["temp", 0.5], "arb"])],
+                             "sub": _sub_tree(rng, 2, [1, 2, 2, 3], p_nest, p_after, p_sets), "sub_mode": rng.choice(SUB_MODES)}
+        if flavour in ("after", "mixed") and (flavour == "after" or rng.random() < 0.5):
+            h["after"] = _after_list(rng)
+            if rng.random() < 0.7:
+                h["sub_mode"] = rng.choice(["execute", "decorator_execute"])     # the children RUN, then the parent fails
+        if flavour in ("sets", "mixed") and len(h["sub"]) > 1 and (flavour == "sets" or rng.random() < 0.5):
+            h["sub_sets"] = _sub_sets(rng, [x["id"] for x in h["sub"]])
+        handlers.append(h)
+    for k in range(rng.choice([0, 0, 1])):
+        kind = rng.choice(["create", "update", "delete", "resume"])
+        handlers.append({"kind": kind, "id": f"q{kind[0]}{k}", "default": "ok", "opts": {},
+                         "script": [rng.choice(["ok", ["temp", 1.0], "perm"]) for _ in range(rng.choice([0, 1, 2]))]})
+    rng.shuffle(handlers)
+    timeline: list[list] = []
+    objects: list[dict] = []
+    if rng.random() < 0.4:
+        body: dict[str, Any] = {"spec": {"x": 0}, "metadata": {"labels": {"l": "1"}}}
+        if rng.random() < 0.7:
+            body["metadata"]["annotations"] = {OWN_PREFIX + "last-handled-configuration": json.dumps(ESSENCE0, separators=(",", ":")) + "\n"}
+        objects.append({"name": "a", "body": body})
+        t = 0.5
+    else:
+        t = 1.0
+        timeline.append([t, "create", "a", {"spec": {"x": 0}, "metadata": {"labels": {"l": "1"}}}])
+    for n in range(rng.choice([0, 1, 1, 2])):
+        t += rng.choice([0.5, 1.0, 1.5, 3.0, 6.0])
+        timeline.append([t, "edit", "a", {"spec": {"x": rng.choice([1, 2, n + 3])}}])
+    if rng.random() < 0.6:
+        t += rng.choice([0.5, 1.0, 2.5, 6.0, 12.0])
+        timeline.append([t, "delete", "a"])
+    end = t + 40.0
+    for _ in range(rng.choice([0, 0, 1, 1])):
+        ts = rng.randrange(32, int((t + 8.0) * 64)) / 64.0
+        timeline.append([ts, rng.choice(["stop", "kill"])])
+        timeline.append([ts + rng.choice([0.5, 2.0, 5.0]), "start"])
+    sc = {"seed": i, "lifecycle": rng.choice(["asap", "one_by_one", "all_at_once", "all_at_once"]), "handlers": handlers,
+          "timeline": timeline, "settings": {"execution.default_backoff": rng.choice([1.0, 2.0])}, "end": end, "family": "nested"}
+    if objects:
+        sc["objects"] = objects
+    if rng.random() < 0.2:
+        sc["status_subresource"] = True
+    return sc
+
+
+def gen_legacy(rng: Any, i: int) -> dict:
+    """Records the framework reads but did not write in this form (white-box review m3): the object exists before the operator
+    starts, an update (or the creation) is outstanding, and it carries progress records WITHOUT a `purpose` (written by a
+    version that had none: `HandlerState.purpose` — "None is a catch-all marker for upgrades/rollbacks"), with or
+    without `retries` / `stopped` / `message`: finished (success, failure), retrying with a delay in the past or in the
+    future, attempts at or beyond the handler's `retries=`. A record without a purpose is the handler's own for every
+    cause: a finished one is not run again, an unfinished one continues with `retry` = its recorded attempts. Some
+    objects also carry such records in `status.kopf.progress` (where the versions before annotations kept them; the
+    default storage still reads and purges them). Then edits, deletion, stop / kill + restart."""
+    n = rng.choice([2, 2, 3])
+    created = rng.random() < 0.25           # no last-handled state at all: the outstanding cause is the creation
+    kind = "create" if created else "update"
+    handlers: list[dict] = []
+    ann: dict[str, str] = {}
+    st_progress: dict[str, dict] = {}
+    for k in range(n):
+        hid = f"{kind[0]}{k}"
+        opts: dict[str, Any] = {}
+        if rng.random() < 0.3:
+            opts["retries"] = rng.choice([2, 3])
+        if rng.random() < 0.3:
+            opts["backoff"] = rng.choice([0.5, 1.0])
+        handlers.append({"kind": kind, "id": hid, "opts": opts, "default": "ok",
+                         "script": [rng.choice(["ok", ["temp", 1.0], "perm", "arb"]) for _ in range(rng.choice([0, 0, 1, 2]))]})
+        shape = rng.choice(["none", "success", "success", "failure", "retrying-past", "retrying-future", "bare", "own-purpose"])
+        if shape == "none":
+            continue
+        rec: dict[str, Any] = {"started": _iso(-rng.choice([4.0, 16.0, 64.0]))}
+        if shape in ("success", "failure"):
+            rec.update({"stopped": _iso(-2.0), "retries": rng.choice([1, 1, 2, 3]), shape: True})
+            if shape == "failure" and rng.random() < 0.5:
+                rec["message"] = "it failed"
+        elif shape.startswith("retrying"):
+            rec.update({"retries": rng.choice([1, 2, 3]), "delayed": _iso(-1.0 if shape.endswith("past") else rng.choice([2.0, 4.0, 8.0]))})
+            if rng.random() < 0.5:
+                rec["message"] = "try again"
+        elif shape == "own-purpose":
+            rec.update({"purpose": kind, "retries": 1, "success": rng.random() < 0.5})
+            if not rec["success"]:
+                rec["delayed"] = _iso(rng.choice([-1.0, 3.0]))
+        if rng.random() < 0.25 and shape != "own-purpose":
+            st_progress[hid] = rec          # the pre-annotation layout
+        else:
+            ann[OWN_PREFIX + hid] = json.dumps(rec, separators=(",", ":"))
+    if rng.random() < 0.3:
+        handlers.append({"kind": "delete", "id": "d", "opts": {"optional": rng.random() < 0.3}, "script": [], "default": "ok"})
+    if rng.random() < 0.2:
+        handlers.append({"kind": "resume", "id": "r", "opts": {}, "script": [rng.choice(["ok", ["temp", 1.0]])], "default": "ok"})
+    rng.shuffle(handlers)
+    body: dict[str, Any] = {"spec": {"x": 1}, "metadata": {"labels": {"l": "1"}, "annotations": ann}}
+    if not created:
+        ann[OWN_PREFIX + "last-handled-configuration"] = json.dumps(ESSENCE0, separators=(",", ":")) + "\n"
+    if st_progress:
+        body["status"] = {"kopf": {"progress": st_progress}}
+    t = rng.choice([2.0, 4.0, 10.0])
+    timeline: list[list] = []
+    for _ in range(rng.choice([0, 0, 1, 2])):
+        timeline.append([t, "edit", "a", rng.choice([{"spec": {"x": 2 + len(timeline)}}, {"metadata": {"labels": {"z": str(len(timeline))}}}])])
+        t += rng.choice([0.5, 2.0, 6.0])
+    if any(h["kind"] == "delete" for h in handlers) and rng.random() < 0.5:
+        timeline.append([t, "delete", "a"])
+    if rng.random() < 0.4:
+        ts = rng.randrange(16, int((t + 4.0) * 64)) / 64.0
+        timeline.append([ts, rng.choice(["stop", "kill"])])
+        timeline.append([ts + rng.choice([0.5, 2.0]), "start"])
+    sc = {"seed": i, "lifecycle": rng.choice(["asap", "one_by_one", "all_at_once"]), "handlers": handlers,
+          "objects": [{"name": "a", "body": body}], "timeline": timeline,
+          "settings": {"execution.default_backoff": rng.choice([1.0, 2.0])}, "end": t + 30.0, "family": "legacy"}
+    if rng.random() < 0.2:
+        sc["status_subresource"] = True
+    return sc
+
+
+STORAGES = [{"kind": "annotations", "prefix": "progress.example.com"}, {"kind": "status"}, {"kind": "status", "name": "myop"},
+            {"kind": "multi"}, {"kind": "multi", "prefix": "progress.example.com", "name": "myop"}, {"kind": "annotations"}]
+
+
+def with_storage(rng: Any, sc: dict) -> dict:
+    """The same history under another `settings.persistence.progress_storage`: annotations under another prefix, the
+    status stanza (`status.<name>.progress`), both at once (kopf's default of 2020, still documented)."""
+    sc = dict(sc)
+    sc["progress_storage"] = dict(rng.choice(STORAGES))
+    sc["family"] = (sc.get("family") or "base") + "+storage"
+    if sc["progress_storage"]["kind"] in ("status", "multi") and rng.random() < 0.5:
+        sc["status_subresource"] = True
+    return sc
+
+
+def _with_runner(sc: dict) -> dict:
+    """Every scenario goes through C02's own runner (the shared one plus what it observes in addition)."""
+    return sc if sc.get("runner") else {**sc, "runner": sim_c02.RUNNER}
+
+
 def _bound(p: dict) -> list[str]:
     """The selected handlers that are declared for the cause of this pass (`handler.reason is not None`: on.create /
     on.update / on.delete — as opposed to the mix-in handlers, resuming and field, which have no reason of their own),
@@ -772,24 +1011,17 @@ def _hid(inv: dict) -> str:
     return inv.get("hid") or inv["id"]
 
 
-def _own_record(body: dict, hid: str) -> dict | None:
-    """Independent decoding of a progress annotation of the default storage (short ids only)."""
-    ann = (body.get("metadata") or {}).get("annotations") or {}
-    raw = ann.get(OWN_PREFIX + hid.replace("/", "."))
-    if raw is None:
-        return None
-    try:
-        return json.loads(raw)
-    except ValueError:
-        return None
+def _own_record(body: dict, hid: str, sc: dict | None = None) -> dict | None:
+    """Independent decoding of the progress record of one handler (short ids only), wherever the storage keeps it."""
+    return _progress_records(body, sc or {}).get(hid.replace("/", "."))
 
 
 SIG_F2 = {"site": "process_changing_cause", "shape": "namesake's record left out with its subrefs: the records of its sub-handlers survive the closing purge"}
 
 
 def _namesake_child(sc: dict, key: str) -> bool:
-    """The annotation is the record of a sub-handler whose parent id stands for several registrations (one function
-    stacked under one id for several causes) — read off the scenario's declarations."""
+    """The record (id in its annotation form) is that of a sub-handler whose parent id stands for several registrations
+    (one function stacked under one id for several causes) — read off the scenario's declarations."""
     hid = key[len(OWN_PREFIX):] if key.startswith(OWN_PREFIX) else key
     if "." not in hid and "/" not in hid:
         return False
@@ -800,11 +1032,44 @@ def _namesake_child(sc: dict, key: str) -> bool:
 def oracle(ctx: Ctx, sc: dict, tr: dict) -> None:
     """From the property statement, over implementation-level observations only."""
     dead_times = [m["t"] for m in tr["marks"] if m["what"] == "killed"]
+    calls = tr["calls"]
+    finals_seen: dict[tuple, set] = {}      # (incarnation, uid) -> handlers that reached a final outcome in that process
     for cyc in tr["cycles"]:
         body = cyc["body"]
         pc = cyc.get("pcc") or {}
+        # one handling pass invokes a handler or sub-handler at most once: what the first invocation yields is not on
+        # the object yet (it travels in the pass's own patch), so a second one is governed by no recorded progress —
+        # it repeats the `retry` number, and repeats a success ("every handler succeeds at most once per cycle")
+        once: dict[str, Any] = {}
         for inv in cyc["invoked"]:
-            rec = _own_record(body, _hid(inv))
+            hid_, out_ = _hid(inv), (calls[inv["call"]].get("outcome") if "call" in inv else None)
+            if hid_ in once:
+                ctx.oracle_fail(f"handler {hid_} is invoked twice in ONE handling pass (first: {once[hid_]}, again: {out_}, "
+                                f"both with retry={inv['retry']})",
+                                {"scenario": sc, "cycle": cyc["i"], "invoked": [[_hid(i), i["retry"]] for i in cyc["invoked"]]},
+                                {"site": "execute_handlers_once", "shape": "handler invoked twice in one pass"})
+            once.setdefault(hid_, out_)
+        # "closed exactly when every SELECTED handler has finished": the handlers the registry selects for the cause are
+        # the selected ones; the pass may leave one out only as a resuming handler that HAS reached a final outcome for
+        # this object in this process (/repo 6c4463d) — judged from the outcomes observed so far, not from kopf's memory
+        key_io = (cyc["inc"], cyc["uid"])
+        if pc.get("reason") in KINDS and pc.get("raw_selected") is not None and not cyc.get("error") and "closed" in pc:
+            actual = pc["actual_selected"] if pc.get("actual_selected") is not None else []
+            for h in pc["raw_selected"]:
+                if h not in actual and h not in finals_seen.get(key_io, set()):
+                    ctx.oracle_fail(f"handler {h} is selected for the {pc['reason']} cause but left out of the pass although it has "
+                                    f"not reached a final outcome in this process (the pass {'closes' if pc.get('closed') else 'does not close'} the cycle)",
+                                    {"scenario": sc, "cycle": cyc["i"], "selected_by_registry": pc["raw_selected"], "executed": actual,
+                                     "finished_in_this_process": sorted(finals_seen.get(key_io, set()))},
+                                    {"site": "process_changing_cause", "shape": "selected handler left out although it has not finished"})
+                    ctx.count("resumed_filter", "left out UNFINISHED")
+                elif h not in actual:
+                    ctx.count("resumed_filter", "left out, finished earlier in this process")
+        for hid_, o_ in (pc.get("outcomes") or {}).items():
+            if o_["final"]:
+                finals_seen.setdefault(key_io, set()).add(hid_)
+        for inv in cyc["invoked"]:
+            rec = _own_record(body, _hid(inv), sc)
             if rec is not None and pc.get("reason") in KINDS and _hid(inv) in (pc.get("selected") or []):
                 if _own(pc, _hid(inv), rec) is None:
                     ctx.count("namesake_record_not_inherited", f"{rec.get('purpose')} -> {pc['reason']}: "
@@ -822,8 +1087,8 @@ def oracle(ctx: Ctx, sc: dict, tr: dict) -> None:
         p = cyc.get("pcc")
         if p and p["reason"] in KINDS and not p["selected"] and "P_after" in p:
             # the cycle is closed because nothing is selected for the cause any more: no record may remain
-            ann = _annotations_after(cyc)
-            prog = sorted(k for k in (ann or {}) if k.startswith(OWN_PREFIX) and k[len(OWN_PREFIX):] not in NON_PROGRESS_KEYS)
+            after_body = _body_after(cyc)
+            prog = sorted(_progress_records(after_body, sc)) if after_body is not None else []
             if prog:
                 ctx.oracle_fail(f"the handling cycle is closed (no handler selected any more) but progress records remain: {prog}",
                                 {"scenario": sc, "cycle": cyc["i"]},
@@ -844,30 +1109,34 @@ def oracle(ctx: Ctx, sc: dict, tr: dict) -> None:
             fin_after[hid] = bool((before and (before["success"] or before["failure"])) or (o and o["final"]))
         all_fin = all(fin_after.values())
         left = [h for h in p["owned"] if p["P_after"].get(h) is not None]
-        after_ann = _annotations_after(cyc)
-        if after_ann is not None:
-            prog = sorted(k for k in after_ann if k.startswith(OWN_PREFIX) and k[len(OWN_PREFIX):] not in NON_PROGRESS_KEYS)
+        after_body = _body_after(cyc)
+        if after_body is not None:
+            recs_after = _progress_records(after_body, sc)
+            prog = sorted(recs_after)
             if all_fin and prog:
                 ctx.oracle_fail(f"the handling cycle is closed but progress records remain on the object: {prog}",
                                 {"scenario": sc, "cycle": cyc["i"]},
                                 SIG_F2 if all(_namesake_child(sc, k) for k in prog) else
                                 {"site": "process_changing_cause", "shape": "progress annotations left after closing"})
             if not all_fin:
-                for k in prog:
-                    hid = k[len(OWN_PREFIX):]
-                    if "." not in hid:
-                        continue
-                    parent = hid.rsplit(".", 1)[0]
-                    prec = after_ann.get(OWN_PREFIX + parent)
-                    try:
-                        subrefs = (json.loads(prec) or {}).get("subrefs") or [] if prec else None
-                    except ValueError:
-                        subrefs = None
-                    if subrefs is not None and hid not in [str(x).replace("/", ".") for x in subrefs]:
-                        ctx.oracle_fail(f"sub-handler record {k} is not referenced by its parent's record (it would survive the closing purge)",
-                                        {"scenario": sc, "cycle": cyc["i"], "parent_subrefs": subrefs},
-                                        SIG_F2 if _namesake_child(sc, k) else
-                                        {"site": "execute_handler_once", "shape": "sub-handler record not covered by parent subrefs"})
+                # the closing purge reads the references of the TOP-LEVEL records: the record of a sub-handler of any
+                # depth must be referenced by the record of EVERY handler it is nested in (its parent, its parent's
+                # parent, …), else it survives the closing of the cycle
+                for hid in prog:
+                    parts = hid.split(".")
+                    for cut in range(len(parts) - 1, 0, -1):
+                        anc = ".".join(parts[:cut])
+                        prec = recs_after.get(anc)
+                        if not isinstance(prec, dict):
+                            continue        # no such handler (a dotted id), or nothing recorded for it
+                        subrefs = prec.get("subrefs") or []
+                        if hid not in [str(x).replace("/", ".") for x in subrefs]:
+                            ctx.oracle_fail(f"sub-handler record {hid} is not referenced by the record of {anc}, which it is nested in "
+                                            f"(it would survive the closing purge)",
+                                            {"scenario": sc, "cycle": cyc["i"], "ancestor": anc, "ancestor_subrefs": subrefs},
+                                            SIG_F2 if _namesake_child(sc, hid) else
+                                            {"site": "execute_handler_once", "shape": "sub-handler record not covered by parent subrefs"})
+                            break
         if all_fin and left:
             ctx.oracle_fail(f"all selected handlers finished but progress records remain: {left}",
                             {"scenario": sc, "cycle": cyc["i"]}, {"site": "process_changing_cause", "shape": "closed without purge"})
@@ -937,6 +1206,7 @@ def oracle(ctx: Ctx, sc: dict, tr: dict) -> None:
     if not dead_times and not sc.get("faults"):
         succ: dict[tuple, int] = {}
         last_reason: dict[Any, str] = {}
+        parents_with_subs = {h["id"] for h in sc.get("handlers", []) if h.get("sub")}
         for cyc in tr["cycles"]:
             p = cyc.get("pcc")
             if p and p["reason"] in KINDS and last_reason.get(cyc["uid"]) not in (None, p["reason"]):
@@ -963,6 +1233,18 @@ def oracle(ctx: Ctx, sc: dict, tr: dict) -> None:
                     if succ[key] > 1:
                         ctx.oracle_fail(f"handler {hid} succeeded twice within one handling cycle with no crash/lost response/late echo",
                                         {"scenario": sc, "cycle": cyc["i"]}, {"site": "process_changing_cause", "shape": "double success"})
+            # the same, counted at the handler functions themselves (a function that returned normally HAS succeeded,
+            # whatever the framework made of it) — handlers without sub-handlers: a parent's function legitimately
+            # returns once per pass of its children
+            for inv in cyc["invoked"]:
+                if _hid(inv) in p["owned"] and inv["id"] not in parents_with_subs and "call" in inv \
+                        and calls[inv["call"]].get("outcome") == "ok":
+                    key = (cyc["uid"], _hid(inv), "fn")
+                    succ[key] = succ.get(key, 0) + 1
+                    if succ[key] > 1:
+                        ctx.oracle_fail(f"the function of handler {_hid(inv)} returned successfully twice within one handling cycle with no "
+                                        f"crash/lost response/late echo",
+                                        {"scenario": sc, "cycle": cyc["i"]}, {"site": "execute_handler_once", "shape": "double success (function level)"})
             if p["reason"] in KINDS and ("P_after" in p) and all(v is None for k, v in p["P_after"].items() if k in p["owned"]) \
                     and (p["outcomes"] or not p["selected"]):
                 for key in [k for k in succ if k[0] == cyc["uid"]]:
@@ -1001,20 +1283,15 @@ def oracle_subs(ctx: Ctx, sc: dict, tr: dict) -> dict:
         p = cyc.get("pcc") or {}
         # deletion (or another cause) arriving over an open series of sub-handlers: histogram only
         if p.get("reason") in KINDS:
-            ann = (body.get("metadata") or {}).get("annotations") or {}
-            foreign = False
-            for k, raw in ann.items():
-                if k.startswith(OWN_PREFIX) and "." in k[len(OWN_PREFIX):] and k[len(OWN_PREFIX):] not in NON_PROGRESS_KEYS:
-                    try:
-                        foreign = foreign or (json.loads(raw) or {}).get("purpose") not in (None, p["reason"])
-                    except ValueError:
-                        pass
+            foreign = any("." in k and isinstance(r, dict) and r.get("purpose") not in (None, p["reason"])
+                          for k, r in _progress_records(body, sc).items())
             if foreign:
                 ctx.count("sub_superseded_series", f"{p['reason']} over the open series of another cause")
         if not regs or cyc.get("error"):
             continue
         invoked = {_hid(i): i for i in cyc["invoked"]}
-        after_ann = _annotations_after(cyc)
+        after_body = _body_after(cyc)
+        recs_after = _progress_records(after_body, sc) if after_body is not None else None
         marked = bool((body.get("metadata") or {}).get("deletionTimestamp"))
         released = marked and "allow_deletion" in ((cyc.get("apply") or {}).get("fns") or [])
         closing = bool(p.get("closed")) or bool(p.get("diffbase_in_patch")) or released
@@ -1023,14 +1300,30 @@ def oracle_subs(ctx: Ctx, sc: dict, tr: dict) -> dict:
             S = [f"{parent}/{sid}" for sid in reg["subs"]]
             fin_before, due = {}, []
             for sid in S:
-                rec = _own_record(body, sid)
+                rec = _own_record(body, sid, sc)
                 fin_before[sid] = _finished(rec)
                 if not fin_before[sid]:
                     d = (rec or {}).get("delayed")
                     if d is None or _iso_s(d) <= reg["t"]:
                         due.append(sid)
-            fin_after = {sid: fin_before[sid] or (sid in invoked and calls[invoked[sid]["call"]].get("outcome") in ("ok", "perm"))
-                         for sid in S}
+            reg_by_parent = {r["parent_hid"]: r for r in regs}
+
+            def fin_of(sid: str, depth: int = 0) -> bool:
+                """finished after this pass, from what the functions did: recorded as finished before, or its function ended for
+                good in this pass — and, if it is a parent itself, so did all the sub-handlers it registered"""
+                if _finished(_own_record(body, sid, sc)):
+                    return True
+                if sid not in invoked:
+                    return False
+                c = calls[invoked[sid]["call"]]
+                if c.get("outcome") == "perm":
+                    return True
+                if c.get("outcome") != "ok":
+                    return False
+                sub_reg = reg_by_parent.get(sid)
+                return sub_reg is None or depth > 8 or all(fin_of(f"{sid}/{x}", depth + 1) for x in sub_reg["subs"])
+
+            fin_after = {sid: fin_before[sid] or fin_of(sid) for sid in S}
             kind = kinds.get(reg["parent"], "?")
             key = f"{kind}:{p.get('reason')}"
             stats[key] = stats.get(key, 0) + 1
@@ -1039,22 +1332,25 @@ def oracle_subs(ctx: Ctx, sc: dict, tr: dict) -> dict:
             ctx.count("sub_registration", reg["mode"])
             ctx.count("sub_registered_n", str(len(S)))
             ctx.count("sub_pass_shape", f"due={min(len(due), 3)} fin_before={sum(fin_before.values())} all_fin_after={all(fin_after.values())} closing={closing}")
+            if reg.get("depth"):
+                ctx.count("sub_nesting", f"registered at depth {reg['depth'] + 1}")
+            if reg.get("after") not in (None, "ok"):
+                a = reg["after"]
+                ctx.count("sub_parent_fails_after", f"{a[0] if isinstance(a, list) else a}{' (before the implicit run)' if reg.get('aborted') else ''}")
             rep = {"scenario": sc, "cycle": cyc["i"], "parent": parent, "registered": S, "due": due,
                    "invoked": [[_hid(i), i["retry"]] for i in cyc["invoked"]]}
             missing = [sid for sid in due if sid not in invoked]
-            if due and (missing if lifecycle == "all_at_once" else len(missing) == len(due)):
+            # the parent's own function raised right after registering (implicit modes): kopf never gets to run them
+            aborted = bool(reg.get("aborted"))
+            # (b), (c) speak of a parent whose OWN function went through: one that fails itself is finished by that
+            own_ok = calls[reg["call"]].get("outcome") in ("ok", "subhandlers") and not calls[reg["call"]].get("after_subs")
+            if due and not aborted and (missing if lifecycle == "all_at_once" else len(missing) == len(due)):
                 ctx.oracle_fail(f"the {p.get('reason')} handler {parent} ran and registered the sub-handlers {S}, but the due "
                                 f"sub-handler(s) {missing} were not invoked in this pass",
                                 rep, {"site": "subhandling.execute", "shape": "selected sub-handler not invoked although its parent ran"})
-            if not all(fin_after.values()):
+            if not all(fin_after.values()) and own_ok:
                 unfinished = [sid for sid, f in fin_after.items() if not f]
-                prec = None
-                if after_ann is not None:
-                    raw = after_ann.get(OWN_PREFIX + parent.replace("/", "."))
-                    try:
-                        prec = json.loads(raw) if raw else None
-                    except ValueError:
-                        prec = None
+                prec = recs_after.get(parent.replace("/", ".")) if recs_after is not None else None
                 po = (p.get("outcomes") or {}).get(parent)
                 if _finished(prec) or (po and po["final"]):
                     ctx.oracle_fail(f"the parent handler {parent} is finished although its sub-handler(s) {unfinished} have not finished",
@@ -1077,6 +1373,9 @@ def abstract(cyc: dict, lifecycle: str) -> tuple[list, dict] | None:
                          "bound": _bound(p),
                          "lifecycle": lifecycle, "P": p["P"], "outcomes": outcomes, "now": p["now"],
                          "now1": p["now1"] if p["now1"] is not None else p["now"], "universe": universe}]
+    if p.get("raw_selected") is not None and p["reason"] in KINDS and not cyc.get("error"):
+        # the step between the registry's selection and the handlers the pass is given (`selectResumed`, `resumedAfter`)
+        req[1].update({"raw": p["raw_selected"], "initial": p.get("raw_initial") or [], "resumed": p.get("resumed_before") or []})
     top = set(p["owned"])
     impl = {"invoked": [[_hid(i), i["retry"]] for i in cyc["invoked"] if _hid(i) in top],
             "P": {k: v for k, v in p["P_after"].items() if k in top},
@@ -1086,7 +1385,10 @@ def abstract(cyc: dict, lifecycle: str) -> tuple[list, dict] | None:
     # for the converse direction (what the model purges must be gone in the implementation, unless a
     # sub-pass of this very pass wrote it again): kept aside, resolved once the model has answered
     impl["_after_all"] = dict(p["P_after"])
-    impl["_sub_written"] = sorted({k for sp in (p.get("subpasses") or []) for k in sp.get("known", [])})
+    impl["_sub_written"] = sorted({k for sp in (p.get("subpasses") or []) + (p.get("subpasses_deep") or []) for k in sp.get("known", [])})
+    if "raw" in req[1]:
+        impl["_resumed"] = {"executed": p["actual_selected"] if p.get("actual_selected") is not None else [],
+                            "resumed_after": sorted(p.get("resumed_after") or [])}
     return req, impl
 
 
@@ -1096,11 +1398,19 @@ def abstract_subs(cyc: dict, lifecycle: str) -> list[tuple[list, dict]]:
     and the sub-records the object carries afterwards (unless the closing purge removed them)."""
     p = cyc.get("pcc") or {}
     out = []
-    for sp in p.get("subpasses") or []:
-        if "error" in sp or sp.get("outcomes") is None or p.get("outcomes") is None:
+    first, deep = p.get("subpasses") or [], [sp for sp in (p.get("subpasses_deep") or []) if "error" in sp or sp.get("selected") or sp.get("known")]
+    if any("error" in sp for sp in first + deep) or p.get("outcomes") is None:
+        return out
+    # the parents whose OWN function raised after its sub-pass (`after`): final / error / delay of their outcome are the
+    # error policy's (C11's subject); what is compared is what the sub-pass did and the references the outcome carries
+    own_failed = {reg["parent_hid"] for reg in cyc.get("sub_registered") or [] if reg.get("after") not in (None, "ok")}
+    for sp in first + deep:
+        if sp.get("outcomes") is None:
             continue
         parent = sp["parent"]
-        po = p["outcomes"].get(parent)
+        # the parent's outcome: the top-level pass's, or — below the first level — the enclosing sub-pass's
+        holders = [p["outcomes"]] if sp in first else [q["outcomes"] for q in first + deep if q is not sp and q.get("outcomes")]
+        po = next((h[parent] for h in holders if parent in h), None)
         if po is None:
             continue
         known = sp["known"]
@@ -1109,9 +1419,12 @@ def abstract_subs(cyc: dict, lifecycle: str) -> list[tuple[list, dict]]:
                                "now1": sp["now1"] if sp["now1"] is not None else sp["now"], "universe": known}]
         impl: dict[str, Any] = {"invoked": [[_hid(i), i["retry"]] for i in cyc["invoked"] if _hid(i) in known],
                                 "final": po["final"], "error": po["error"], "delay": po["delay"],
-                                "subrefs": sorted(po["subrefs"])}
+                                "subrefs": sorted(set(po["subrefs"]))}
+        if parent in own_failed:
+            impl["_own_failed"] = True
         after = p.get("P_after")
-        survives = isinstance(after, dict) and "error" not in after and after.get(parent) is not None
+        top_parent = next((t for t in p["outcomes"] if parent == t or parent.startswith(t + "/")), None)
+        survives = isinstance(after, dict) and "error" not in after and top_parent is not None and after.get(top_parent) is not None
         impl["P"] = {k: after.get(k) for k in known} if survives else None
         out.append((req, impl))
     return out
@@ -1125,10 +1438,12 @@ def abstract_subsel(cyc: dict, lifecycle: str) -> list[tuple[list, dict]]:
     out = []
     if cyc.get("error") or p.get("reason") not in KINDS:
         return out
-    sps = p.get("subpasses") or []
+    sps = (p.get("subpasses") or []) + [sp for sp in (p.get("subpasses_deep") or []) if "error" in sp or sp.get("selected")]
     if any("error" in sp for sp in sps):
         return out
     for reg in cyc.get("sub_registered") or []:
+        if reg.get("aborted") or (reg.get("depth") and "subpasses_deep" not in p):
+            continue        # the parent's function raised before kopf ran the children / deeper levels not observed
         parent = reg["parent_hid"]
         children = [f"{parent}/{sid}" for sid in reg["subs"]]
         mine = [sp for sp in sps if sp["parent"] == parent]
@@ -1150,6 +1465,10 @@ def abstract_whole(cyc: dict, lifecycle: str) -> tuple[list, dict] | str | None:
         return None
     if any("error" in sp or sp.get("outcomes") is None for sp in sps):
         return "sub-pass not observed"
+    if any(sp.get("selected") for sp in p.get("subpasses_deep") or []) or any(o["subrefs"] for sp in sps for o in sp["outcomes"].values()):
+        return "nested sub-handlers"
+    if any(reg.get("after") not in (None, "ok") for reg in cyc.get("sub_registered") or []):
+        return "parent fails after its sub-pass"
     if p.get("now1") not in (None, p["now"]) or any(sp["now"] != p["now"] or sp["now1"] not in (None, p["now"]) for sp in sps):
         return "several clocks in one pass"
     if any(set(sp["known"]) != set(sp["selected"]) for sp in sps) or len({sp["parent"] for sp in sps}) != len(sps):
@@ -1188,8 +1507,17 @@ def run(ctx: Ctx) -> None:
     scenarios += [gen_deselect(ctx.rng, 80_000_000 + ctx.seed * 100000 + i) for i in range(max(40, n // 4))]
     scenarios += [gen_stacked(ctx.rng, 90_000_000 + ctx.seed * 100000 + i) for i in range(max(60, n // 3))]
     scenarios += [gen_free(ctx.rng, 95_000_000 + ctx.seed * 100000 + i) for i in range(max(40, n // 5))]
+    scenarios += [gen_nested(ctx.rng, 96_000_000 + ctx.seed * 100000 + i) for i in range(max(90, n // 3))]
+    scenarios += [gen_legacy(ctx.rng, 97_000_000 + ctx.seed * 100000 + i) for i in range(max(30, n // 8))]
+    # other progress storages: a sample of every family re-run under another `settings.persistence.progress_storage`
+    pick = [sc for sc in scenarios if not sc.get("objects") or sc.get("family") != "legacy"]
+    scenarios += [with_storage(ctx.rng, sc) for sc in ctx.rng.sample(pick, min(len(pick), max(60, n // 4)))]
     for name, sc in _corpus():
         scenarios.insert(0, sc)
+    scenarios = [_with_runner(sc) for sc in scenarios]
+    for sc in scenarios:
+        ctx.count("family", sc.get("family") or "base")
+        ctx.count("progress_storage", (sc.get("progress_storage") or {}).get("kind", "default (smart)"))
     results = pool.run_many(scenarios, wall=40.0)
     reqs, impls, where = [], [], []
     for sc, res in zip(scenarios, results):
@@ -1267,25 +1595,46 @@ def run(ctx: Ctx) -> None:
                         {"selected": m["selected"], "reason": m["reason"], "subpasses": 1}, wh)
             continue
         if req[0] == "C02.cycle2":
-            model = {"invoked": m["invoked"], "subInvoked": m["subInvoked"], "P": m["P"], "closed": m["closed"]}
+            model = {"invoked": m["invoked"], "subInvoked": m["subInvoked"], "P": _norm(m["P"]), "closed": m["closed"]}
+            impl["P"] = _norm(impl["P"])
             ctx.compare("C02 whole pass with its sub-passes", impl, model, wh)
             continue
         if req[0] == "C02.subpass":
             model = {"invoked": m["invoked"], "final": m["final"], "error": m["error"], "delay": m["delay"],
-                     "subrefs": sorted(m["subrefs"]), "P": m["P"] if impl["P"] is not None else None}
+                     "subrefs": sorted(set(m["subrefs"])), "P": _norm(m["P"]) if impl["P"] is not None else None}
+            impl["P"] = _norm(impl["P"])
+            if impl.pop("_own_failed", False):
+                if m["final"]:      # the children's pass went through, then the parent's own function raised
+                    for f in ("final", "error", "delay"):
+                        model[f] = impl[f]
+                ctx.count("subpass_parent_own_ending", "children finished, parent raised" if m["final"] else "children unfinished")
             ctx.compare("C02 sub-handler pass", impl, model, wh)
             continue
         top = set(req[1]["owned"])
+        resumed_io = impl.pop("_resumed", None)
+        if resumed_io is not None:
+            ctx.compare("C02 selection after the resumed filter (registry's selection minus the resuming handlers that have finished in this process)",
+                        {"executed": resumed_io["executed"]}, {"executed": m["selectedR"]}, wh)
+            ctx.compare("C02 in-memory set of finished resuming handlers after the pass",
+                        {"resumed": resumed_io["resumed_after"]}, {"resumed": sorted(set(m["resumedAfter"]))}, wh)
         after_all, sub_written = impl.pop("_after_all"), set(impl.pop("_sub_written"))
         model_purged = [k for k in req[1]["universe"] if k not in top and req[1]["P"].get(k) is not None
                         and m["P"].get(k) is None and k not in sub_written]
         impl["unpurged_subs"] = sorted(k for k in model_purged if after_all.get(k) is not None)
-        model = {"invoked": m["invoked"], "P": {k: v for k, v in m["P"].items() if k in top}, "unpurged_subs": [],
+        impl["P"] = _norm(impl["P"])
+        model = {"invoked": m["invoked"], "P": _norm({k: v for k, v in m["P"].items() if k in top}), "unpurged_subs": [],
                  "closed": m["closed"],
                  "purged_subs": impl["purged_subs"] if all(m["P"].get(k) is None for k in impl["purged_subs"]) else
                  sorted(k for k in impl["purged_subs"] if m["P"].get(k) is None),
                  "delays": sorted(m["delays"])}
         ctx.compare("C02 handling pass", impl, model, wh)
+
+
+def _norm(P: Any) -> Any:
+    """Records with their references as a sorted set (kopf stores `sorted(set(...))`; the model keeps the order of arrival)."""
+    if not isinstance(P, dict):
+        return P
+    return {k: ({**v, "subrefs": sorted(set(v.get("subrefs") or []))} if isinstance(v, dict) else v) for k, v in P.items()}
 
 
 def _corpus() -> list[tuple[str, dict]]:
@@ -1299,11 +1648,17 @@ def search(ctx: Ctx, broken: list) -> None:
     scenarios = [gen_scenario(ctx.rng, 7_000_000 + ctx.seed * 100000 + i) for i in range(n)]
     scenarios += [gen_deselect(ctx.rng, 87_000_000 + ctx.seed * 100000 + i) for i in range(n // 4)]
     scenarios += [gen_stacked(ctx.rng, 97_000_000 + ctx.seed * 100000 + i) for i in range(n // 3)]
+    scenarios += [gen_subs(ctx.rng, 77_000_000 + ctx.seed * 100000 + i) for i in range(n // 4)]
+    scenarios += [gen_nested(ctx.rng, 96_700_000 + ctx.seed * 100000 + i) for i in range(n // 3)]
+    scenarios += [gen_supersede(ctx.rng, 57_000_000 + ctx.seed * 100000 + i) for i in range(n // 8)]
+    scenarios += [gen_legacy(ctx.rng, 97_700_000 + ctx.seed * 100000 + i) for i in range(n // 8)]
+    scenarios += [with_storage(ctx.rng, sc) for sc in ctx.rng.sample(scenarios, min(len(scenarios), n // 4))]
     # bias: replay the scenarios of the diverging passes first
     for b in broken[:10]:
         sc = (b.replay or {}).get("input", {}).get("scenario") if isinstance(b.replay, dict) else None
         if sc:
             scenarios.insert(0, sc)
+    scenarios = [_with_runner(sc) for sc in scenarios]
     for sc, res in zip(scenarios, pool.run_many(scenarios, wall=40.0)):
         if "trace" in res:
             oracle(ctx, sc, res["trace"])
@@ -1314,7 +1669,7 @@ def search(ctx: Ctx, broken: list) -> None:
 
 def replay(ctx: Ctx, data: dict) -> None:
     rep = data.get("replay", data)
-    sc = rep.get("scenario") or rep.get("input", {}).get("scenario")
+    sc = _with_runner(rep.get("scenario") or rep.get("input", {}).get("scenario"))
     res = pool.run_many([sc], wall=40.0)[0]
     if "trace" in res:
         oracle(ctx, sc, res["trace"])
